@@ -409,18 +409,28 @@ func UtxoValidateInsufficientCollateral(
 			totalCollateral.Add(totalCollateral, amount)
 		}
 	}
+	// The collateral balance is what the inputs hold minus what the
+	// collateral return output gives back
+	if collReturn := tx.CollateralReturn(); collReturn != nil {
+		if returnAmount := collReturn.Amount(); returnAmount != nil {
+			totalCollateral.Sub(totalCollateral, returnAmount)
+		}
+	}
 	// minCollateral = fee * collateralPercentage / 100
 	fee := tmpTx.Fee()
 	if fee == nil {
 		fee = new(big.Int)
 	}
-	minCollateral := new(
+	feeShare := new(
 		big.Int,
 	).Mul(fee, new(big.Int).SetUint64(uint64(tmpPparams.CollateralPercentage)))
-	minCollateral.Div(minCollateral, big.NewInt(100))
-	if totalCollateral.Cmp(minCollateral) >= 0 {
+	// The ledger requires balance * 100 >= fee * collateralPercentage exactly;
+	// dividing first would round the requirement down in the transaction's favour
+	scaledCollateral := new(big.Int).Mul(totalCollateral, big.NewInt(100))
+	if scaledCollateral.Cmp(feeShare) >= 0 {
 		return nil
 	}
+	minCollateral := new(big.Int).Div(feeShare, big.NewInt(100))
 	// Convert to uint64 for error struct (best effort)
 	var providedU, requiredU uint64
 	if totalCollateral.IsUint64() {
